@@ -69,6 +69,12 @@ template<> struct Ad<std::string> {
 // ---------------------------------------------------------------------------------------------------------------
 template<class T> struct KllF {
   using Sk = kll_sketch<T, typename Ad<T>::C>;
+  // the k the published error is computed from: "min K" of to_string() (smallest k that contributed compacted data)
+  static void published(const Sk& s, long long& pk, double& eps, double& eps_pk) {
+    std::string t = s.to_string(); size_t p = t.find("min K"); p = p == std::string::npos ? p : t.find(':', p);
+    pk = p == std::string::npos ? -1 : atoll(t.c_str() + p + 1);
+    eps = s.get_normalized_rank_error(false); eps_pk = pk > 0 ? Sk::get_normalized_rank_error((uint16_t)pk, false) : -1;
+  }
   static const char* name() { return "kll"; }
   static Sk make(unsigned k, bool) { return Sk((uint16_t)k); }
   static unsigned draw_k(vt::Rng& g, long maxk) { return g.chance(50) ? 8 : (unsigned)g.range(8, maxk); }
@@ -84,6 +90,7 @@ template<class T> struct KllF {
 };
 template<class T> struct ReqF {
   using Sk = req_sketch<T, typename Ad<T>::C>;
+  static void published(const Sk&, long long& pk, double& eps, double& eps_pk) { pk = 0; eps = 0; eps_pk = 0; }   // REQ publishes bounds, not a k-derived epsilon
   static const char* name() { return "req"; }
   static Sk make(unsigned k, bool hra) { return Sk((uint16_t)k, hra); }
   static unsigned draw_k(vt::Rng& g, long maxk) { return g.chance(50) ? 4 : (unsigned)g.range(4, maxk); }
@@ -96,6 +103,9 @@ template<class T> struct ReqF {
 };
 template<class T> struct ClassicF {
   using Sk = quantiles_sketch<T, typename Ad<T>::C>;
+  static void published(const Sk& s, long long& pk, double& eps, double& eps_pk) {
+    pk = s.get_k(); eps = s.get_normalized_rank_error(false); eps_pk = Sk::get_normalized_rank_error((uint16_t)pk, false);
+  }
   static const char* name() { return "classic"; }
   static Sk make(unsigned k, bool) { return Sk((uint16_t)k); }
   static unsigned draw_k(vt::Rng& g, long maxk) { unsigned k = 2; while (k * 2 <= (unsigned)maxk && g.chance(55)) k *= 2; return k; }
@@ -125,6 +135,8 @@ template<class F, class T, class Sk> static void scalars(Ev& e, const Sk& s) {
   else e.i("minD", 0).i("maxD", 0);
   long long used, bound; F::space(s, used, bound);
   e.i("used", used).i("bound", bound);
+  long long pk; double eps, eps_pk; F::published(s, pk, eps, eps_pk);
+  e.i("pk", pk).d("epsD", eps).d("epsPkD", eps_pk);
 }
 
 // iteration, guarded: never dereference more entries than get_num_retained() announces
